@@ -44,6 +44,7 @@ inductive Op where
   | getattr (name : String)
   | delattr (name : String)
   | elaborate
+  | steal (v : Val) (key : String)   -- *another* container adopts the object under `key`
   deriving Repr
 
 inductive Out where
@@ -109,6 +110,13 @@ def step (cfg : Cfg) (names : List String) (s : State) : Op → State × Out
       | none => (s, .reject)
   | .delattr _ => (s, .reject)
   | .elaborate => ({ s with frozen := true }, .ok)
+  | .steal v key =>
+    match v with
+    | .other => (s, .reject)
+    | .hdl o =>
+      -- the other container's `_add`: renames the object and takes over its parent reference
+      ({ s with nameOf := fun i => if i = o.id then some key else s.nameOf i
+                parented := fun i => if i = o.id then false else s.parented i }, .ok)
 
 def run (cfg : Cfg) (names : List String) (s : State) : List Op → State × List Out
   | [] => (s, [])
@@ -126,5 +134,11 @@ def Op.names : Op → List String
   | .getattr n => [n]
   | .delattr n => [n]
   | .elaborate => []
+  | .steal _ k => [k]
+
+/-- Operations of the property's own alphabet (everything but adoption by another container). -/
+def Op.local : Op → Bool
+  | .steal _ _ => false
+  | _ => true
 
 end Hdl21.NS
